@@ -200,7 +200,7 @@ func sumOf(content string) (string, error) {
 }
 
 // ---------------------------------------------------------------------------
-// exhaustive enumeration over a 16-variant alphabet
+// exhaustive enumeration over a 18-variant alphabet
 
 var alphabet = []tarx.Entry{
 	{Name: "a", Type: "file", Mode: 0644, Sec: 1500000001, Body: "X", Format: "ustar"},
@@ -219,6 +219,8 @@ var alphabet = []tarx.Entry{
 	{Name: "pax_global_header", Type: "xglobal", PAX: map[string]string{"comment": "global"}},
 	{Name: "h", Type: "hardlink", Mode: 0644, Sec: 1500000014, Link: "a"},
 	{Name: "a/b", Type: "file", Mode: 0000, Sec: 1500000015, Body: "locked", Format: "ustar"},
+	{Name: "d", Type: "file", Mode: 0644, Sec: 1500000016, Asec: 1400000000, Body: "atime", Format: "pax"},
+	{Name: "a/", Type: "dir", Mode: 0750, Sec: 1500000017, Asec: 1600000000, Format: "gnu"},
 }
 
 func TestExhaustive(t *testing.T) {
@@ -267,6 +269,9 @@ func genEntry(unpriv bool) *rapid.Generator[tarx.Entry] {
 		e.Sec = 1500000000 + int64(rapid.IntRange(0, 99999).Draw(t, "sec"))
 		if e.Format == "pax" {
 			e.Nsec = rapid.SampledFrom([]int64{0, 1, 400000000, 500000000, 999999999}).Draw(t, "nsec")
+		}
+		if (e.Format == "pax" || e.Format == "gnu") && rapid.IntRange(0, 3).Draw(t, "atime?") == 0 {
+			e.Asec = rapid.SampledFrom([]int64{1400000000, 1600000000, 1}).Draw(t, "asec")
 		}
 		switch {
 		case k < 45:
